@@ -31,6 +31,7 @@ class Alphabet:
         self.adts = adts or {}
         self.bools = set(bools or [])
         self.retval = retval
+        self.adt_fn = None  # optional: adt def path -> short name (for ADTs recognised by shape, e.g. select!'s private enum)
         self.fut_types = fut_types or []  # [(substring of the awaited future's type, label)] for awaits of non-call values
         self.type_tags = type_tags or []  # [(substring of the scrutinee type, tag)] used when no producing call is known
 
@@ -243,7 +244,8 @@ def switch_labels(body, bi, t, alpha):
                     elif vn == "Pending":
                         labels[val] = "pend:" + lab
             return labels
-        if adt in alpha.adts:
+        short_adt = alpha.adts.get(adt) or (alpha.adt_fn(adt) if (alpha.adt_fn and adt) else None)
+        if short_adt:
             srcs = _src_labels(body, scrut_origs, alpha)
             suffix = ("@" + "|".join(sorted(srcs))) if srcs else ""
             if not suffix:
@@ -254,13 +256,13 @@ def switch_labels(body, bi, t, alpha):
             seen = set()
             for (val, _b) in t["targets"]:
                 vn = variants.get(val, val)
-                labels[val] = "sw:%s::%s%s" % (alpha.adts[adt], vn, suffix)
+                labels[val] = "sw:%s::%s%s" % (short_adt, vn, suffix)
                 seen.add(vn)
             rest = [v for v in variants.values() if v not in seen]
             if len(rest) == 1:
-                labels["otherwise"] = "sw:%s::%s%s" % (alpha.adts[adt], rest[0], suffix)
+                labels["otherwise"] = "sw:%s::%s%s" % (short_adt, rest[0], suffix)
             elif rest:
-                labels["otherwise"] = "sw:%s::{%s}%s" % (alpha.adts[adt], ",".join(sorted(rest)), suffix)
+                labels["otherwise"] = "sw:%s::{%s}%s" % (short_adt, ",".join(sorted(rest)), suffix)
         return labels
     # 2. bool switch on a call result
     if t.get("oty") == "bool" and alpha.bools:
@@ -322,6 +324,8 @@ def check(nfa: NFA, spec: Spec, max_viol=3):
     viols = []
     seen_msgs = set()
     while dq:
+        if len(pred) > 2000000:
+            raise RuntimeError("product automaton too large (unbounded monitor state?) for %s" % nfa.name)
         cur = dq.popleft()
         node, st = cur
         if node in (RET, CANCEL, UNWIND):
